@@ -188,6 +188,9 @@ class Streams(Problem):
                 raise ViolationError("wrong-path", "hit of %r shown under path %r" % (h.path, shown_path),
                                      expected=h.path, observed=shown_path)
             want_n = None if h.number is None else str(h.number)
+            if want_n is None and number is not None:
+                raise ViolationError("invented-number", "hit %s (no line number in the input) shown with number %r"
+                                     % (h.path, number), expected=None, observed=number)
             if want_n is not None and number != want_n:
                 raise ViolationError("wrong-number", "hit %s:%s shown with number %r" % (h.path, want_n, number),
                                      expected=want_n, observed=number)
@@ -220,7 +223,10 @@ class Streams(Problem):
 
 
 def make_hits(paths, numbers, codes, kinds=KINDS):
-    return [Hit(k, s, p, n, c) for (k, s) in kinds for p in paths for n in numbers for c in codes]
+    # (a function-context header line `path=code` always carries the text of the line that names the function: a
+    # header with blank code does not occur)
+    return [Hit(k, s, p, n, c) for (k, s) in kinds for p in paths for n in numbers for c in codes
+            if not (k == "header" and c.strip() == "")]
 
 
 def ambiguous_plain(h):
